@@ -6,6 +6,7 @@ import (
 	"crypto/sha256"
 	"encoding/json"
 	"fmt"
+	"math/big"
 	"os"
 	"sync"
 	"time"
@@ -282,6 +283,24 @@ func (f *Fixture) Vote(a AVote) *types.Vote {
 		vote.Signature[32] &= 0x3f // keep s in the lower half so that the value checks pass and recovery decides
 	case sig == -9:
 		vote.Signature = nil
+	case sig <= -11 && sig >= -13:
+		// another FORM of the named validator's genuine signature over exactly these sign bytes
+		g := w.SignVote(v, chainID, vote)
+		switch sig {
+		case -11: // the high-s twin (r, N - s, v xor 1): computable by anybody from the genuine signature
+			n, _ := new(big.Int).SetString("fffffffffffffffffffffffffffffffebaaedce6af48a03bbfd25e8cd0364141", 16)
+			s2 := new(big.Int).Sub(n, new(big.Int).SetBytes(g[32:64])).Bytes()
+			tw := append([]byte{}, g...)
+			copy(tw[32:64], make([]byte, 32))
+			copy(tw[64-len(s2):64], s2)
+			tw[64] ^= 1
+			vote.Signature = tw
+		case -12: // the "compressed key" flag
+			g[64] += 4
+			vote.Signature = g
+		case -13: // a trailing byte
+			vote.Signature = append(g, 0)
+		}
 	default:
 		// the named validator's own key over sign bytes that differ in one field
 		c := *vote
